@@ -493,48 +493,76 @@ func knownMasks(known []KnownFinding) []map[string]bool {
 // run that trips over two known defects at once). It returns the finding
 // name(s) joined by "+", or "".
 func matchKnown(c Check, w *worker, known []KnownFinding, seed uint64, i int, draws []uint64, v *Violation) string {
-	var cands []KnownFinding
-	for _, k := range known {
-		if k.Class != "" && k.Class != v.Class {
-			continue
-		}
-		if k.Pattern != "" {
-			re, err := regexp.Compile(k.Pattern)
-			if err != nil {
-				Fail("known finding %s: %v", k.Name, err)
+	candidates := func(v *Violation) []KnownFinding {
+		var cands []KnownFinding
+		for _, k := range known {
+			if k.Class != "" {
+				re, err := regexp.Compile("^(?:" + k.Class + ")$")
+				if err != nil {
+					Fail("known finding %s: %v", k.Name, err)
+				}
+				if !re.MatchString(v.Class) {
+					continue
+				}
 			}
-			if !re.MatchString(v.Detail) && !re.MatchString(v.Class) {
+			if k.Pattern != "" {
+				re, err := regexp.Compile(k.Pattern)
+				if err != nil {
+					Fail("known finding %s: %v", k.Name, err)
+				}
+				if !re.MatchString(v.Detail) && !re.MatchString(v.Class) {
+					continue
+				}
+			}
+			cands = append(cands, k)
+		}
+		return cands
+	}
+	// explained reports whether violation v, observed with the features in
+	// mask masked, is accounted for by listed findings: some candidate
+	// finding has no feature (class/pattern identify it), or masking its
+	// feature as well yields a run that is clean or whose violation is
+	// explained in turn. names collects the findings used.
+	var explained func(v *Violation, mask map[string]bool, names *[]string, depth int) bool
+	explained = func(v *Violation, mask map[string]bool, names *[]string, depth int) bool {
+		if depth > 4 {
+			return false
+		}
+		for _, k := range candidates(v) {
+			if k.Feature == "" {
+				*names = append(*names, k.Name)
+				return true
+			}
+			if mask[k.Feature] {
 				continue
 			}
+			m2 := map[string]bool{k.Feature: true}
+			for f := range mask {
+				m2[f] = true
+			}
+			rm := newRun(c, w, seed, i, choice.Replay(draws), m2)
+			rm.quiet = true
+			v2 := c.Exec(rm)
+			saved := len(*names)
+			*names = append(*names, k.Name)
+			if v2 == nil || explained(v2, m2, names, depth+1) {
+				return true
+			}
+			*names = (*names)[:saved]
 		}
-		cands = append(cands, k)
+		return false
 	}
-	passesWith := func(mask map[string]bool) bool {
-		rm := newRun(c, w, seed, i, choice.Replay(draws), mask)
-		rm.quiet = true
-		return c.Exec(rm) == nil
-	}
-	for _, k := range cands {
-		if k.Feature == "" || passesWith(map[string]bool{k.Feature: true}) {
-			return k.Name
-		}
-	}
-	if len(cands) > 0 {
-		union := map[string]bool{}
-		for _, k := range known {
-			if k.Feature != "" {
-				union[k.Feature] = true
+	var names []string
+	if explained(v, map[string]bool{}, &names, 0) {
+		seen := map[string]bool{}
+		var uniq []string
+		for _, n := range names {
+			if !seen[n] {
+				seen[n] = true
+				uniq = append(uniq, n)
 			}
 		}
-		var names []string
-		for _, k := range cands {
-			if k.Feature != "" {
-				names = append(names, k.Name)
-			}
-		}
-		if len(union) > 1 && len(names) > 0 && passesWith(union) {
-			return strings.Join(names, "+")
-		}
+		return strings.Join(uniq, "+")
 	}
 	return ""
 }
